@@ -1,5 +1,5 @@
 #!/bin/bash
-# Sensitivity self-test: every patch under mutants/ (and seeded/*/patch.diff) is applied to a scratch
+# Sensitivity self-test: every patch under mutants/ (and seeded/[A-Z]*/patch.diff) is applied to a scratch
 # worktree of /repo's HEAD; the tree must still build and pass the 41 baseline tests, and the check of
 # the property named by the patch must report a violation. Results: evidence/selftest.json.
 #   ./selftest.sh                 all patches
@@ -11,7 +11,7 @@ go build -o bin/verif ./cmd/verif || exit 2
 ALL="C05 C06 C07 C08 C09 C14 C16 C18"
 patches=("$@")
 if [ ${#patches[@]} -eq 0 ]; then
-  patches=(mutants/*.patch seeded/*/patch.diff)
+  patches=(mutants/*.patch seeded/[A-Z]*/patch.diff)
 fi
 scratch=$(mktemp -d /tmp/verif-selftest-XXXXXX)
 out=$scratch/out
